@@ -124,13 +124,15 @@ def _compare(sp, spec, ranks, outs, ins, ai, chunk_by_choice, f64=False):
             A(T([[R(1)] for _ in range(rows)], torch.float32))
         except (RuntimeError, TypeError, ValueError):
             pass
-    backward([prog[n] for n in outs], A, inputs=[prog[n] for n in ins], parallel_chunk_size=k)
-    twin = Prog(spec, ranks={kk: v + 100 for kk, v in ranks.items()}, dtype=dt)
-    set_grad(twin["b"], "b")
-    torch.autograd.backward([twin[n] for n in outs], grad_tensors=_split(w, twin, outs), inputs=[twin[n] for n in ins])
     def cex(model):
         return dict(kind="autojac_vs_autograd", spec=spec_json(spec), outputs=outs, inputs=ins, jac=jac_values(model, prog), agg=nm,
                     w=cex_values(model, w=w)["w"], chunk=k, old={"b": cex_values(model, g=old_b)["g"]}, dtype="float64" if f64 else "float32", prior_float32=bool(prior))
+    _, failed = valid_call(lambda: backward([prog[n] for n in outs], A, inputs=[prog[n] for n in ins], parallel_chunk_size=k), cex, "backward_on_valid_arguments_succeeds")
+    if failed:
+        return failed
+    twin = Prog(spec, ranks={kk: v + 100 for kk, v in ranks.items()}, dtype=dt)
+    set_grad(twin["b"], "b")
+    torch.autograd.backward([twin[n] for n in outs], grad_tensors=_split(w, twin, outs), inputs=[twin[n] for n in ins])
     obs = []
     for n in prog.leaf_names():
         g1, g2 = grad_list(prog[n]), grad_list(twin[n])
